@@ -75,3 +75,40 @@ def generic_replay(ctx, payload):
         it, _ = fresh_interpreter(True, rp.get("legacy", False))
         print("re-run:", run_program(it, rp["src"])[:3])
     return 0
+
+
+def independence_cases():
+    """(program, expected rendering): a value produced by a non-mutating operation is independent of the operation's inputs — changing the
+    result in place does not reach the input or a later result of the same operation, and changing the input afterwards does not reach the
+    result. Strings count too: `c[0] = 'z'` changes a string in place. Every form that hands out a part or a copy."""
+    cases = []
+    # strings: one-character results of indexing / iteration / slicing, then changed in place
+    for take in ("s[1]", "s[-2]", "s[1 to 2]", "substr(s, 1, 2)", "(fn() do def r_ = ''; for ch in s do if ch == 'b' then r_ = ch end; r_ end)()",
+                 "[ch for ch in s][1]", "s[1] + ''", "sublist([s[1]], 0)[0]"):
+        cases.append((f"def s = 'abc'; def c = {take}; c[0] = 'z'; [s, s[1], 'xbx'[1], 'b', {take}, c]", ('text', "['abc', 'b', 'b', 'b', 'b', 'z']")))
+        cases.append((f"def s = 'abc'; def c = {take}; def d = {take}; c[0] = 'z'; [c, d]", ('text', "['z', 'b']")))
+    cases.append(("def l = ['ab', 'cd']; def c = l[0][1]; c[0] = 'z'; [l, 'b', 'abc'[1]]", ('text', "[['ab', 'cd'], 'b', 'b']")))
+    cases.append(("def r = []; for ch in 'aba' do append(r, ch) end; r[0][0] = 'z'; [r, 'a', 'xa'[1]]", ('text', "[['z', 'b', 'a'], 'a', 'a']")))
+    # conversions and copies of collections: change the result, then look at the input and at a second result; change the input, look at the result
+    for make, conv, grow in (("<<3, 1, 2>>", "list(s)", "append(r, 9)"), ("<<3, 1, 2>>", "[...s]", "append(r, 9)"), ("<<3, 1, 2>>", "sorted(s)", "append(r, 9)"),
+                             ("<<3, 1, 2>>", "[x for x in s]", "delete_at(r, 0)"), ("<<3, 1, 2>>", "list(s)", "delete_at(r, 0)"), ("<<3, 1, 2>>", "list(s)", "r[0] = 7"),
+                             ("<<3, 1, 2>>", "list(s)", "insert_at(r, 0, 0)"), ("[3, 1, 2]", "set(s)", "append(r, 9)"), ("[3, 1, 2]", "set(s)", "remove(r, 1)"),
+                             ("[3, 1, 2]", "sorted(s)", "r[0] = 7"), ("[3, 1, 2]", "sublist(s, 0)", "r[0] = 7"), ("[3, 1, 2]", "s[0 to *]", "append(r, 9)"),
+                             ("[3, 1, 2]", "s + []", "append(r, 9)"), ("[3, 1, 2]", "[] + s", "append(r, 9)"), ("[3, 1, 2]", "s * 1", "r[0] = 7"),
+                             ("<<<'b' => 1, 'a' => 2>>>", "[...s]", "append(r, 'z')"), ("<<<'b' => 1, 'a' => 2>>>", "[k for k in keys s]", "delete_at(r, 0)"),
+                             ("<<<'b' => 1, 'a' => 2>>>", "[e for e in entries s]", "delete_at(r, 0)"), ("<<<'b' => 1, 'a' => 2>>>", "set(s)", "append(r, 'z')")):
+        cases.append((f"def s = {make}; def before = string(s); def r = {conv}; def r0 = string(r); {grow}; def r2 = {conv}; "
+                      f"[string(s) == before, string(r2) == r0, string(r) != r0, [x for x in s] == [x for x in {make}], length(s) == length({make})]",
+                      ('text', "[TRUE, TRUE, TRUE, TRUE, TRUE]")))
+    for make, conv, change in (("<<3, 1, 2>>", "list(s)", "append(s, 0)"), ("<<3, 1, 2>>", "[...s]", "remove(s, 1)"), ("[3, 1, 2]", "set(s)", "append(s, 0)"),
+                               ("[3, 1, 2]", "sorted(s)", "s[0] = 9"), ("[3, 1, 2]", "sublist(s, 0)", "delete_at(s, 0)"), ("[3, 1, 2]", "s + []", "append(s, 0)"),
+                               ("<<<'b' => 1, 'a' => 2>>>", "[...s]", "s['c'] = 3"), ("<<<'b' => 1, 'a' => 2>>>", "set(s)", "remove(s, 'a')")):
+        cases.append((f"def s = {make}; def r = {conv}; def r0 = string(r); {change}; string(r) == r0", ('text', "TRUE")))
+    # parameter defaults: every call that omits the argument gets its own value
+    for dflt, grow in (("[]", "append(acc, x)"), ("<<>>", "append(acc, x)"), ("<<<>>>", "acc[x] = x"), ("[[]]", "append(acc[0], x)"), ("[1]", "append(acc, x)"),
+                       ("<*n = 0*>", "acc->n = acc->n + x")):
+        cases.append((f"def f(x, acc = {dflt}) do {grow}; string(acc) end; def a = f(1); def b = f(1); def g = fn(x, acc = {dflt}) do {grow}; string(acc) end; "
+                      f"def c = g(1); def d = g(1); [a == b, c == d, a == c]", ('text', "[TRUE, TRUE, TRUE]")))
+        cases.append((f"def mk() fn(x, acc = {dflt}) do {grow}; string(acc) end; def p = mk(); def q = mk(); [p(1) == p(1), p(1) == q(1)]", ('text', "[TRUE, TRUE]")))
+        cases.append((f"def o = <*m = fn(self, x, acc = {dflt}) do {grow}; string(acc) end*>; [o->m(1) == o->m(1)]", ('text', "[TRUE]")))
+    return cases
